@@ -77,6 +77,19 @@ class Check(object):
         self.results.append(rr)
         return rr
 
+    def run_rule(self, func, *args, **kwargs):
+        """Run one rule; an AnalysisError (anchor vanished / unmodelled idiom) is deferred so that violations
+        other rules positively established are still reported.  With no violation at all the deferred error
+        makes the run fail as analysis-broken (exit 2), never a silent pass."""
+        from sa.model import AnalysisError
+        try:
+            return self.add(func(*args, **kwargs))
+        except AnalysisError as e:
+            if not hasattr(self, 'deferred'):
+                self.deferred = []
+            self.deferred.append('%s: %s' % (getattr(func, '__name__', 'rule'), e))
+            return None
+
     def finish(self, repo, replay_only=None):
         from sa.model import AnalysisError
         known = load_known()
@@ -119,6 +132,11 @@ class Check(object):
             if f.witness is not None:
                 out_lines.append('    witness: %s' % json.dumps(f.witness, default=repr)[:600])
             out_lines.append('VIOLATION property=%s replay=%s' % (self.prop, rp))
+        deferred = getattr(self, 'deferred', [])
+        if deferred and not violations:
+            raise AnalysisError('; '.join(deferred))
+        for dmsg in deferred:
+            out_lines.append('ANALYSIS-NOTE property=%s (rule could not be decided, reported because other rules found violations): %s' % (self.prop, dmsg))
         if not scratch:
             self.write_evidence(repo, n_inst, violations, known_hit)
         for l in out_lines:
